@@ -16,6 +16,7 @@
 -/
 import Robotools.Model.World
 import Robotools.Proofs.EvoLemmas
+import Robotools.Proofs.Templates
 import Robotools.Props.C04
 import Robotools.Props.C10
 namespace Robotools.C13
